@@ -22,7 +22,7 @@ How to run things in your worktree (no network; do not pip install anything):
   cd {wt} && PYTHONPATH={wt}/src /venv/bin/python -m pytest -q -p no:cacheprovider --timeout=900 --continue-on-collection-errors
   (the full suite takes ~5-8 minutes; run the relevant sub-directories first, but you MUST confirm with the full suite at the end. On the UNCHANGED tree exactly 9 tests fail: test_compute_beta_fails[1], two test_fkm_nonlinear_recorder_* in tests/stress/rainflow/test_recorders.py, test_timesignal::test_ps_df, 2 meshsignal doctests, 3 vmap_import doctests. A change is acceptable only if the set of failing tests stays exactly those 9 — record the pass/fail counts.)
   Always use PYTHONPATH={wt}/src so that your worktree's sources are imported (check with: PYTHONPATH={wt}/src /venv/bin/python -c "import pylife; print(pylife.__path__)").
-  NOTE: src/pylife/stress/rainflow/extension.pyx is compiled into src/pylife/rainflow_ext*.so, which is NOT rebuilt automatically. If (and only if) you change extension.pyx, rebuild with:  cd {wt} && /venv/bin/python -m cython -3 src/pylife/stress/rainflow/extension.pyx -o /tmp/wt/out/{pid}/extension.c && gcc -shared -fPIC -O2 $(/venv/bin/python -c "import sysconfig,numpy;print('-I'+sysconfig.get_paths()['include'],'-I'+numpy.get_include())") /tmp/wt/out/{pid}/extension.c -o src/pylife/rainflow_ext.cpython-312-x86_64-linux-gnu.so   (and say so in meta.json). Prefer changes in the .py files.
+  NOTE: src/pylife/stress/rainflow/extension.pyx is compiled into src/pylife/rainflow_ext*.so, which is NOT rebuilt automatically. If (and only if) you change extension.pyx, rebuild with:  cd {wt} && /venv/bin/python -m cython -3 --module-name pylife.rainflow_ext src/pylife/stress/rainflow/extension.pyx -o /tmp/wt/out/{pid}/extension.c && gcc -shared -fPIC -O2 $(/venv/bin/python -c "import sysconfig,numpy;print('-I'+sysconfig.get_paths()['include'],'-I'+numpy.get_include())") /tmp/wt/out/{pid}/extension.c -o src/pylife/rainflow_ext.cpython-312-x86_64-linux-gnu.so   (and say so in meta.json). Prefer changes in the .py files.
 
 What to produce: up to THREE different, independent changes (each a separate patch against the clean worktree; `git -C {wt} stash`/`checkout -- .` between them), ideally touching different mechanisms behind the property. Each change must:
   1. be small and realistic — the kind of slip a maintainer could make in a refactoring or "optimisation" (off-by-one, wrong comparison operator, wrong tie-breaking, state not reset/carried, wrong index arithmetic, a special-case shortcut, two sites that each look fine alone...). No deliberately obfuscated code, no `if input == magic`.
